@@ -12,7 +12,13 @@ Import ListNotations.
 
 Inductive pop :=
 | PStep (o : op)
-| PLostGrant (cid : nat).     (* re-allocation failed: grant released, nothing told, the pin goes stale *)
+| PLostGrant (cid : nat)      (* re-allocation failed: grant released, nothing told, the pin goes stale *)
+| PLostGrantAt (cid : nat) (P : cset).
+  (* the same inside a request that releases several containers (Synchronize): while the container still held its
+     grant, releases of others may have widened its cpuset; the order of the releases (Go map order) is not
+     observable, so the last cpuset it was told is an input -- it must contain the pin the container had when the
+     request began and lie inside the CPUs of the pool the container was granted in.  The harness lists these
+     operations first in a request and ends every request with a step, which re-tells all granted containers. *)
 
 Definition told_map (t : tree) (s : st) : gmap nat cset := told_cpus t s <$> grants s.
 
@@ -27,6 +33,14 @@ Definition pstep (t : tree) (sp : st * gmap nat cset) (o : pop) : res (st * gmap
     | Err e => Err e
     end
   | PLostGrant cid => let s' := ta_release t s cid in Ok (s', told_map t s' ∪ pins)
+  | PLostGrantAt cid P =>
+    match grants s !! cid, pins !! cid with
+    | Some g, Some Q =>
+      if bool_decide (Q ⊆ P) && bool_decide (P ⊆ p_cpus (pool_at t (g_pool g)))
+      then Ok (ta_release t s cid, <[cid := P]> pins)      (* the others are told afresh by the next step of the request *)
+      else Err (ErrGuard 10)
+    | _, _ => Err (ErrGuard 11)
+    end
   end.
 
 Fixpoint prun (t : tree) (sp : st * gmap nat cset) (os : list pop) : res (st * gmap nat cset) :=
@@ -35,5 +49,31 @@ Fixpoint prun (t : tree) (sp : st * gmap nat cset) (os : list pop) : res (st * g
   | o :: os' => match pstep t sp o with Ok sp' => prun t sp' os' | Err e => Err e end
   end.
 
-Definition is_step (o : pop) : bool := match o with PStep _ => true | PLostGrant _ => false end.
-Definition unstep (o : pop) : op := match o with PStep o' => o' | PLostGrant c => ORelease c end.
+Definition is_step (o : pop) : bool := match o with PStep _ => true | _ => false end.
+Definition unstep (o : pop) : op := match o with PStep o' => o' | PLostGrant c | PLostGrantAt c _ => ORelease c end.
+
+(* ---- correspondence: replay the operation groups of a trace and compare the pins of the listed
+   containers (granted ones and those that lost their grant but are still running) with the cpusets the
+   implementation's cache holds for them ---- *)
+Definition pins_ok (pins : gmap nat cset) (obs : list (nat * list nat)) : bool :=
+  forallb (fun x => bool_decide (pins !! (fst x) = Some (list_to_set (snd x)))) obs.
+
+Fixpoint pcheck (t : tree) (sp : st * gmap nat cset) (i : nat) (tr : list (list pop * list (nat * list nat))) : option nat :=
+  match tr with
+  | [] => None
+  | (os, ob) :: tr' =>
+    match prun t sp os with
+    | Err _ => Some i
+    | Ok sp' => if pins_ok (snd sp') ob then pcheck t sp' (S i) tr' else Some i
+    end
+  end.
+
+Fixpoint pcheck_segments (i : nat) (segs : list (tree * list (list pop * list (nat * list nat)))) : option (nat * nat) :=
+  match segs with
+  | [] => None
+  | (t, tr) :: segs' =>
+    match pcheck t (init t, ∅) 0 tr with
+    | Some k => Some (i, k)
+    | None => pcheck_segments (S i) segs'
+    end
+  end.
